@@ -17,7 +17,8 @@ STEERING = {
     ("ember", 0xB6): 0x002D,  # TABLE_ENTRY_ERASED        -> NOT_FOUND
     ("ember", 0xB1): 0x0027,  # INDEX_OUT_OF_RANGE        -> INVALID_INDEX
 }
-UNDEFINED_32 = [2**k for k in range(32)] + [2**k - 1 for k in range(2, 33)] + [0x7FFFFFFF, 0xFFFFFFFF, 0x0C1F, 0xABCD1234]
+UNDEFINED_32 = [2**k for k in range(32)] + [2**k - 1 for k in range(2, 33)] + [0x7FFFFFFF, 0xFFFFFFFF, 0x0C1F, 0xABCD1234] + \
+    [(hi << 16) | lo for hi in (1, 2, 0x00FF, 0x8000, 0xFFFF) for lo in (0x0000, 0x0001, 0x0004, 0x0015, 0x0016, 0x0017, 0x0027, 0x002D, 0x0C03)]
 
 
 def one(family: str, value: int):
@@ -37,6 +38,18 @@ def one(family: str, value: int):
     if family == "sl":
         if out is not inp and not (out == inp and type(out) is type(inp)):
             return out, f"unified status {inp!r} changed to {out!r}"
+        # the numeric code itself must survive construction, the wire decoder and the conversion (an undefined code must not be
+        # folded onto a defined one), and OK is reported only for code 0
+        if int(inp) != value or int(out) != value:
+            return out, f"unified status code {value:#010x} became {int(out):#010x} ({out!r})"
+        try:
+            wire, rest = t.sl_Status.deserialize(value.to_bytes(4, "little"))
+        except Exception as e:
+            return out, f"unified status code {value:#010x} cannot be decoded from the wire: {e!r}"
+        if int(wire) != value or rest:
+            return out, f"unified status code {value:#010x} decoded from the wire as {int(wire):#010x}"
+        if (int(out) == 0) != (value == 0):
+            return out, f"unified status code {value:#010x} reported as {out!r}"
         return out, None
     is_ok = int(out) == 0
     if is_ok != (value == 0):
